@@ -27,7 +27,7 @@ def replay(harness, playback_text):
         src = os.path.join(dst, 'src', module + '.rs')
         code = re.sub(r'(?m)^```\s*$', '', playback_text)
         open(src, 'a').write('\n' + code + '\n')
-        env = dict(os.environ, CARGO_NET_OFFLINE='true', CARGO_TARGET_DIR=os.path.join(VERIF, '.cache', 'kani-playback-target'))
+        env = dict(os.environ, CARGO_NET_OFFLINE='true', CARGO_TARGET_DIR=(os.environ['VERIF_ALT_TARGET'] + '-pb') if os.environ.get('VERIF_ALT_TARGET') else os.path.join(VERIF, '.cache', 'kani-playback-target'))
         p = subprocess.run(['cargo', 'kani', 'playback', '-Z', 'concrete-playback', '--', tm.group(1)], cwd=dst, env=env,
                            capture_output=True, text=True, timeout=900)
         out = p.stdout + p.stderr
